@@ -116,6 +116,13 @@ def check_uniqueness(ctx):
     ctx.anchor("C01.U", "CORE_INSTRUCTIONS", n_core, 30)
     ctx.anchor("C01.U", "VanillaFlavour specific", len(fl.get("VanillaFlavour", (None, [], []))[2]), 13)
     ctx.anchor("C01.U", "NVFlavour specific", len(fl.get("NVFlavour", (None, [], []))[2]), 5)
+    check_flavour_tables(ctx, "C01.U")
+
+
+def check_flavour_tables(ctx, rule="C01.U"):
+    """each Flavour instance owns its opcode and mnemonic tables (shared by C01.U, C02.O, C17.N: decoding, the published
+    opcodes and the parser's mnemonic lookup all go through these two tables)"""
+    repo = ctx.repo
     # Flavour.__init__: id_map keyed by instr.id, name_map by instr.mnemonic, lookups use the same maps
     fc = repo.get_class(I.FLAVOUR_MOD, "Flavour")
     init = fc.methods.get("__init__")
@@ -126,7 +133,7 @@ def check_uniqueness(ctx):
         if isinstance(n, (ast.DictComp,)):
             maps.setdefault(src(n.key), []).append(src(n.value))
     ok = "instr.id" in maps and "instr.mnemonic" in maps and all(v == "instr" for vs in maps.values() for v in vs)
-    ctx.check("C01.U", "Flavour.__init__:tables-keyed-by-id-and-mnemonic", ok,
+    ctx.check(rule, "Flavour.__init__:tables-keyed-by-id-and-mnemonic", ok,
               f"Flavour.__init__ builds tables keyed by {sorted(maps)} (expected instr.id and instr.mnemonic mapping to the class itself)",
               fc.loc(init))
     # every flavour instance owns its tables: they are updated in place with the flavour-specific classes
@@ -135,7 +142,7 @@ def check_uniqueness(ctx):
         mutated = any(isinstance(c, ast.Call) and isinstance(c.func, ast.Attribute) and c.func.attr in ("update", "setdefault", "pop", "clear") and A.is_self_attr(c.func.value, table) for c in A.calls_in(init)) or \
             any(isinstance(n, ast.Assign) and isinstance(n.targets[0], ast.Subscript) and A.is_self_attr(n.targets[0].value, table) for n in A.body_nodes(init))
         fresh = bool(assigns) and all(isinstance(a.value, (ast.Dict, ast.DictComp)) or (isinstance(a.value, ast.Call) and (dotted(a.value.func) in ("dict", "OrderedDict") or (isinstance(a.value.func, ast.Attribute) and a.value.func.attr in ("copy",)) or dotted(a.value.func) in ("copy.copy", "copy.deepcopy"))) for a in assigns)
-        ctx.check("C01.U", f"Flavour.__init__:{table}:owned-by-the-instance", fresh or not mutated,
+        ctx.check(rule, f"Flavour.__init__:{table}:owned-by-the-instance", fresh or not mutated,
                   f"Flavour.__init__ binds self.{table} to `{src(assigns[0].value) if assigns else None}` and then updates it in place: every flavour instance aliases the same table, "
                   f"so constructing another flavour changes how an existing one decodes opcodes / resolves mnemonics", fc.loc(init), sample={"table": table, "initialised_from": src(assigns[0].value)[:60] if assigns else None})
     for meth, table in (("get_instr_by_id", "id_map"), ("get_instr_by_name", "name_map")):
@@ -145,7 +152,8 @@ def check_uniqueness(ctx):
         rets = A.returns(f)
         params = A.param_names(f)
         ok = len(rets) == 1 and len(params) == 2 and A.norm(rets[0].value) == f"self.{table}[{params[1]}]"
-        ctx.check("C01.U", f"Flavour.{meth}:reads-{table}", ok, f"Flavour.{meth} does not return self.{table}[<its argument>]", fc.loc(f))
+        ctx.check(rule, f"Flavour.{meth}:reads-{table}", ok, f"Flavour.{meth} does not return self.{table}[<its argument>]", fc.loc(f))
+
 
 
 def check_shapes(ctx):
@@ -569,6 +577,10 @@ def run(ctx):
     check_shapes(ctx)
     check_operands(ctx)
     check_framing(ctx)
+    # lossless "for the stated range": every value the encoder accepts must be representable in the field it is written to
+    # (same obligations as C16.G: a guard wider than its field means accepted values wrap, e.g. a signed guard on an unsigned field)
+    from . import c16
+    c16.run(ctx, rule="C01.R")
 
 
 B = "netqasm/lang/instr/base.py"
